@@ -375,7 +375,7 @@ def main():
             defaults["stmts"] = text
             json.dump(defaults, open(DEFAULTS_PATH, "w"))
             print("wrote stmts to " + DEFAULTS_PATH)
-    except (ParseError, OSError, ValueError) as ex:
+    except Exception as ex:  # anything unexpected in the source: fall back, never crash
         print("gen_stmts: could not extract (recorded translation used; tie by correspondence only): PesPacketFilter (%s)" % ex, file=sys.stderr)
         text = defaults.get("stmts")
         if text is None:
